@@ -41,6 +41,25 @@ func judgeC10Script(c *SrvCase, obs *SrvObs, o *Outcome) {
 	}
 }
 
+// c10WarmUp: an ordinary negotiation on another server channel of the same process, whose offer contains none and whose
+// client chooses it. A server that does not offer cleartext stands next to servers that do; whatever one negotiation leaves
+// behind in the process must not count for the next.
+func c10WarmUpCase() *SrvCase {
+	cfg := SrvCfg{Transport: "tcp-tls", Comp: []string{"none"}, Enc: []string{"none", "tls"}, Schemes: []string{"guest"}, Auth: standardAuth([]string{"guest"}), Register: "echo", Mode: "direct"}
+	c := &SrvCase{Cfg: cfg, End: "eof", Script: []CSym{
+		{Kind: "session", State: "new", ID: "none", From: peerFrom},
+		{Kind: "session", State: "negotiating", ID: "sid", Comp: "none", Enc: "none", From: peerFrom},
+	}}
+	return c
+}
+
+func c10WarmUp(t *testing.T) {
+	c := c10WarmUpCase()
+	for i := 0; i < 3; i++ {
+		synctest.Test(t, func(t *testing.T) { _ = RunServerScript(c) })
+	}
+}
+
 func TestC10Enum(t *testing.T) {
 	rec := NewRecorder("C10", "TestC10Enum")
 	defer rec.Finish(t)
@@ -67,6 +86,11 @@ func TestC10Enum(t *testing.T) {
 						o := &Outcome{NonTrivial: true}
 						o.Class("mode=" + mode)
 						o.Class(fmt.Sprintf("enc-list-len=%d", len(enc)))
+						if idx%3 == 0 {
+							c.WarmUp = true
+							c10WarmUp(t)
+							o.Class("after-a-negotiation-of-none-elsewhere-in-the-process")
+						}
 						var obs *SrvObs
 						rec.Journal(c)
 						synctest.Test(t, func(t *testing.T) { obs = RunServerScript(c) })
@@ -176,7 +200,15 @@ func TestC10(t *testing.T) {
 		o := &Outcome{NonTrivial: true}
 		o.Class("comp=" + strings.Join(c.Cfg.Comp, "+"))
 		o.Class("enc=" + strings.Join(c.Cfg.Enc, "+"))
+		c.WarmUp = rapid.IntRange(0, 2).Draw(rt, "warmUp") == 0
 		rec.Journal(c)
+		if c.WarmUp {
+			o.Class("after-a-negotiation-of-none-elsewhere-in-the-process")
+			w := c10WarmUpCase()
+			for i := 0; i < 3; i++ {
+				rapid.SyncTest(rt, func(rt *rapid.T) { _ = RunServerScript(w) })
+			}
+		}
 		var obs *SrvObs
 		rapid.SyncTest(rt, func(rt *rapid.T) { obs = RunServerScript(c) })
 		judgeC10Script(c, obs, o)
